@@ -189,6 +189,26 @@ def check_corruption(case):
     return {"v": out, "nt": True, "cnt": {"corruptions": 255}}
 
 
+def check_checksum_field(case):
+    """Every other 16-bit value in the checksum field of an encoded block: never accepted."""
+    hd = case["hd"]
+    body = body_of(case["n"], 3)
+    raw = e4.split(hd["device_id"], hd["r"], hd["w"], hd["stream"], hd["function"], hd["system"], body)[0]
+    orig = int.from_bytes(raw[-2:], "big")
+    out = []
+    for v in range(65536):
+        if v == orig:
+            continue
+        try:
+            d = _sm.SecsIBlock.decode(raw[:-2] + v.to_bytes(2, "big"))
+        except Exception:  # noqa: BLE001
+            continue
+        if d is not None:
+            out.append(("C16|corrupted-block-accepted|checksum-field", {"case": case, "value": v, "original": orig}))
+            break
+    return {"v": out, "nt": True, "cnt": {"corruptions": 65535}}
+
+
 def merges(counts):
     """All interleavings of sequences with the given lengths (as lists of sequence indices)."""
     seq = [k for k, c in enumerate(counts) for _ in range(c)]
@@ -200,7 +220,7 @@ def merges(counts):
 
 
 def check_case(case):
-    return {"split": check_split, "reasm": check_reassembly, "corrupt": check_corruption}[case["kind"]](case)
+    return {"split": check_split, "reasm": check_reassembly, "corrupt": check_corruption, "cksum": check_checksum_field}[case["kind"]](case)
 
 
 def cases(ctx):
@@ -228,10 +248,17 @@ def cases(ctx):
         for order in merges(counts):
             yield {"kind": "reasm", "counts": counts, "order": order}
     # corruption: every position x every other value
-    for n in (0, 1, 244):
-        length = 13 + n
-        for pos in range(length):
-            yield {"kind": "corrupt", "hd": base, "n": n, "pos": pos}
+    # (base header: checksum >= 0x100; small header: checksum < 0x100, so a one-byte change can zero the field)
+    small = {"device_id": 0, "r": 0, "w": 0, "stream": 1, "function": 2, "system": 3}
+    for hd in (base, small):
+        for n in (0, 1, 244):
+            length = 13 + n
+            for pos in range(length):
+                yield {"kind": "corrupt", "hd": hd, "n": n, "pos": pos}
+    # every other value of the whole 16-bit checksum field
+    for hd in (base, small, dict(small, system=0), dict(base, system=2 ** 32 - 1)):
+        for n in (0, 1) + ((244,) if thorough else ()):
+            yield {"kind": "cksum", "hd": hd, "n": n}
 
 
 def run(ctx):
@@ -243,7 +270,8 @@ def run(ctx):
     ]
     ctx.setcov("rule", "body lengths {0,1,2,243..245,487..489,732,255 blocks(+1), 32767 blocks thorough} x header fields at 1 (2 thorough) "
                        "deviations from a base header; all merges of block sequences (3,2),(2,2,2),(3,2,1); every position x 255 other "
-                       "values of blocks with 0/1/244 data bytes; non-trivial = length on a 244 boundary, any merge, any corruption position")
+                       "values of blocks with 0/1/244 data bytes (header with checksum >= 0x100 and one with checksum < 0x100); every other "
+                       "16-bit value of the checksum field; non-trivial = length on a 244 boundary, any merge, any corruption position")
     ctx.run_cases(check_case, cases(ctx), "c16", chunk=16)
 
 
